@@ -98,10 +98,10 @@ def build(tier: str) -> Cases:
     pre_pool = [s for s in corpus if s in appendix]
     rest = [s for s in corpus if s not in appendix and len(s) <= 200]
     r.shuffle(rest)
-    pre_pool += rest if thorough else rest[:40]
+    pre_pool += rest[:700] if thorough else rest[:40]
     gsel = list(gen)
     r.shuffle(gsel)
-    pre_pool += gsel[: (700 if thorough else 25)]
+    pre_pool += gsel[: (250 if thorough else 25)]
     for s in pre_pool:
         sh = r.random() < 0.2
         for k in range(len(s)):
@@ -111,11 +111,11 @@ def build(tier: str) -> Cases:
     for s in ed_pool:
         if len(s) > 300:
             continue
-        k = (max(4, len(s) // 3) if thorough else (3 if s in appendix else (1 if r.random() < 0.5 else 0)))
+        k = (max(3, len(s) // 5) if thorough else (3 if s in appendix else (1 if r.random() < 0.5 else 0)))
         for (i, j, ins) in G.edits(r, s, k):
             cs.add(s, i, j, ins, r.random() < 0.2, "edit")
     # 5. random strings
-    for _ in range(12000 if thorough else 500):
+    for _ in range(8000 if thorough else 500):
         cs.whole(G.g_random(r), r.random() < 0.2, "random")
     return cs
 
